@@ -693,6 +693,11 @@ def tet_compute_gradient(tet, vfunc):
     """
     import sys
 
+    vfunc = np.asarray(vfunc)
+    if vfunc.dtype.kind in "ub":
+        # differences of unsigned values would wrap around
+        vfunc = vfunc.astype(float)
+
     v0 = tet.v[tet.t[:, 0], :]
     v1 = tet.v[tet.t[:, 1], :]
     v2 = tet.v[tet.t[:, 2], :]
